@@ -4,13 +4,13 @@
    Executable definitions only; proofs are in MkvsProof/Proofs.v.
 
    Builds on the trie model Mkvs/Trie.v (tree, lookup, hash_expr, root_hash). *)
-From Verif Require Import Lib.Base Mkvs.Trie.
+From Verif Require Import Lib.Base Mkvs.Trie Gen.ProofConsts.
 
 (* hash.Size (common/crypto/hash): every hash.Hash is a [32]byte; an 0x02 entry
    whose payload is not exactly 32 bytes fails hash.UnmarshalBinary (proof.go:420) *)
 Definition HASH_SIZE : nat := 32.
-(* proof.go:20 maxProofDepth *)
-Definition MAX_PROOF_DEPTH : N := 128.
+(* proof.go:20 maxProofDepth, regenerated from the source (Gen/ProofConsts.v) *)
+Definition MAX_PROOF_DEPTH : N := max_proof_depth.
 
 (* ------------------------------------------------------------------ *)
 (* Partial trees: what ProofVerifier.VerifyProof returns               *)
